@@ -8,7 +8,7 @@ RULE = ("Design model: FimoScan.tla — for every motif of the exact lane (colum
         "definition (every start 0..L-w, both strands, score, tail count), MirrorLaw (reverse-complemented sequence gives the "
         "mirror image), EveryWindow, FieldsOK, and agreement of the DP tail with enumeration. M1: every such case through fimo() "
         "(tensor and FASTA input, dim=0/1, return_counts, 1/2/all threads). M2: random and planted sequences (motif planted at 0 "
-        "and L-w), 1-4 motifs of width 2-7, bin sizes 1, 1/2, 1/4, several sequences of different lengths, N characters. "
+        "and L-w), 1-4 motifs of width 2-7, bin sizes 1, 1/2, 1/4, thresholds that are / are not attainable tail probabilities, several sequences of different lengths, N characters. "
         "distinct_nontrivial = cases with a specified hit at start 0 or L-w.")
 EXHAUSTIVE = True
 KEYS = ("motifs", "seqs", "thr", "rc", "scale")
@@ -39,8 +39,10 @@ def run(ctx):
         return out
     std.m2(ctx, "c12", "FimoScan_Trace", "FimoScan_Trace.cfg", 320 if ctx.quick else 8000, negs, shards=8, evkeys=KEYS,
            strip=("msg", "kind"))
-    ctx.assumptions += ["exact lane: PWM entries 0.25*2^(k/scale), eps = 0, bin_size = 1/scale, thresholds odd/(2*4^k): every comparison "
-                        "inside fimo is between exactly representable numbers that are not ties",
+    ctx.assumptions += ["exact lane: PWM entries 0.25*2^(k/scale), eps = 0, bin_size = 1/scale, thresholds odd/(2*4^k) (never a tie) or, for a quarter of the "
+                        "recorded calls, count/4^w of an attainable bin (a tie): the event then records on which side the float table "
+                        "entry fell (tielt, read from _pwm_to_mapping), and the specification's threshold bin follows it — an exact float "
+                        "tie must NOT be reported (strictly below)",
                         "p-values are compared as integer tail counts p*4^w"]
 
 
